@@ -9,7 +9,7 @@ using namespace vh;
 
 struct AllocLog { char* p; size_t bytes; bool live; };
 static std::vector<AllocLog> g_allocs;
-static long g_alloc_calls = 0, g_fail_at = -1, g_wild = 0, g_double_construct = 0;
+static long g_alloc_calls = 0, g_fail_at = -1, g_wild = 0, g_double_construct = 0, g_g2al_unalloc = 0;
 static std::vector<char*> g_constructed;
 
 template <class T> struct FailAlloc {
@@ -46,7 +46,7 @@ typedef tbb::concurrent_vector<int, FailAlloc<int>> V;
 int main() {
     std::vector<i128> c;
     while (read_case(c)) {
-        gate::reset(); g_allocs.clear(); g_alloc_calls = 0; g_wild = 0; g_double_construct = 0; g_constructed.clear();
+        gate::reset(); g_allocs.clear(); g_alloc_calls = 0; g_wild = 0; g_double_construct = 0; g_g2al_unalloc = 0; g_constructed.clear();
         size_t p = 0; g_fail_at = (long)c[p++]; int n = (int)c[p++];
         V* v = new V();
         std::vector<std::vector<int>> results(n);
@@ -59,7 +59,9 @@ int main() {
                     try {
                         if (oa.first == 0) v->grow_by((size_t)oa.second, 7);
                         else if (oa.first == 1) v->push_back(9);
-                        else v->grow_to_at_least((size_t)oa.second, 5);
+                        else { v->grow_to_at_least((size_t)oa.second, 5);
+                               // "returns only when all elements below n are constructed": at the very least their segments must exist
+                               if (g_fail_at < 0 && v->capacity() < (size_t)oa.second) g_g2al_unalloc++; }
                     } catch (...) { r = 2; }
                     results[t].push_back(r);
                     if (r == 2) break;   // the vector is "broken" for this thread: stop growing
@@ -72,7 +74,7 @@ int main() {
         bool ok = gate::run(sched, 20000);
         Out o;
         for (int t = 0; t < n; ++t) { for (int r : results[t]) o.put(r); o.put(-1); }
-        o.word("WILD"); o.put(g_wild); o.word("DOUBLE"); o.put(g_double_construct);
+        o.word("WILD"); o.put(g_wild); o.word("DOUBLE"); o.put(g_double_construct); o.word("G2ALUNALLOC"); o.put(g_g2al_unalloc);
         if (!ok) { o.word("HANG"); o.flush(); _exit(3); }
         size_t sz = v->size();
         // later accesses either work (address inside live memory) or throw
